@@ -33,8 +33,12 @@ class Spec:
         return True
 
 
+def renamed(line, which):
+    return which + line[line.index(" "):]
+
+
 def judge(spec, line, which):
-    return C.run_checker([line], rename=which)[0]
+    return C.run_checker([renamed(line, which)])[0]
 
 
 def shrink(spec, line, which):
@@ -105,13 +109,14 @@ def run(spec, tier, seed, t0):
     lines = corpus + gen
     stats = json.load(open(stats_path)) if os.path.exists(stats_path) else {}
 
-    v_model = C.run_checker(lines, rename=spec.model_fn[0])
-    v_mon = C.run_checker(lines, rename=spec.monitor_fn[0])
+    ml = [renamed(l, spec.model_fn[0]) for l in lines]
+    mm = [renamed(l, spec.monitor_fn[0]) for l in lines]
+    v_model = C.run_checker(ml)
+    v_mon = C.run_checker(mm)
     # in-Coq evaluation of the corpus and the first cases; short ones only (Coq parses literals slowly)
     pick = [i for i in range(len(lines)) if len(lines[i]) < 6000][:len(corpus) + 64]
-    sl = [lines[i] for i in pick]
-    x1, d1 = C.coq_crosscheck(P + "a", spec.coq_module, spec.model_fn[1], sl, [v_model[i] for i in pick])
-    x2, d2 = C.coq_crosscheck(P + "m", spec.coq_module, spec.monitor_fn[1], sl, [v_mon[i] for i in pick])
+    x1, d1 = C.coq_crosscheck(P + "a", spec.coq_module, spec.model_fn[1], [ml[i] for i in pick], [v_model[i] for i in pick])
+    x2, d2 = C.coq_crosscheck(P + "m", spec.coq_module, spec.monitor_fn[1], [mm[i] for i in pick], [v_mon[i] for i in pick])
     if not (x1 and x2):
         raise C.CheckError("in-Coq evaluation disagrees with the extracted checker: %s %s" % (d1, d2))
 
@@ -134,7 +139,7 @@ def run(spec, tier, seed, t0):
         extra_path = os.path.join(C.RUN, "%s.search.cases" % P)
         spec.gen(tier, seed + 7919, extra_path, stats_path + ".search", search=True)
         extra = [l.rstrip("\n") for l in open(extra_path) if l.strip()]
-        v2 = C.run_checker(extra, rename=spec.monitor_fn[0])
+        v2 = C.run_checker([renamed(l, spec.monitor_fn[0]) for l in extra])
         hit = [j for j, v in enumerate(v2) if v is not None]
         if hit:
             small, v = shrink(spec, extra[hit[0]], spec.monitor_fn[0])
